@@ -50,6 +50,50 @@ def structured_path(cfg, h, n, pairs):
     return path
 
 
+GOOD = [0xA0, 0x0B, 0x03, 0x21, 0x13]
+
+
+def junk_then_good_path(cfg, j, pairs):
+    """7E + j free octets + 7E [+ 7E] + a spec frame + 7E + a spec frame + 7E: a discarded frame right before good ones, cut anywhere"""
+    def path(eng, ctx):
+        from spec import ref
+        junk = [sym_octet(f"j{i}") for i in range(j)]
+        f1 = ref.build_frame([0x03], [0x21], 0x13, [0xE6, 0xE7, 0x00])
+        f2 = ref.build_frame([0x02, 0x23], [0x21], 0x10, [0x41])
+        w1, w2 = (ref.stuff(f1), ref.stuff(f2)) if cfg[0] else (f1, f2)
+        dbl = eng.pick(2)
+        stream = SBytes([0x7E] + junk + [0x7E] * (1 + dbl) + w1 + [0x7E] + w2 + [0x7E])
+        compare_all(eng, ctx, cfg, stream, pairs=pairs)
+    return path
+
+
+def twin_path(cfg, n):
+    """object isolation: a second reader of the same class is fed other data in between the calls of the first; the first one's
+    output must not change (state shared between reader objects would show here)"""
+    def path(eng, ctx):
+        from spec import ref
+        hdr = HC.free_octets("h", 5, exclude=(0x7E, 0x7D))
+        body = [sym_octet(f"b{i}") for i in range(n)]
+        stream = SBytes([0x7E] + hdr + body + [0x7E])
+        other = SBytes([0x7E] + ref.build_frame([0x03], [0x21], 0x13, [0x7D, 0x5E, 0x41]) + [0x7D, 0x7E, 0x01, 0x7D])
+        m = len(stream)
+        _, fa = HC.read_chunks(cfg, [stream])
+        a = HC.sig(fa)
+        ctx.witness = {"kind": "hdlc", "cfg": list(cfg), "chunks": [stream], "chunks2": [stream[:m // 2], stream[m // 2:]]}
+        ctx.obs = a
+        ctx.nontrivial()
+        for cut in range(1, m):
+            r1, r2 = HC.reader(cfg), HC.reader(cfg)
+            out = []
+            out += r1.read(stream[:cut])
+            r2.read(other[:len(other) // 2])
+            r2.read(other[len(other) // 2:])
+            out += r1.read(stream[cut:])
+            ctx.check(HC.sig_eq(a, HC.sig(out)), f"another reader fed between the two calls, cut={cut}",
+                      witness={"kind": "hdlc", "cfg": list(cfg), "chunks": [stream], "chunks2": [stream[:cut], stream[cut:]], "twin": [other[:len(other) // 2], other[len(other) // 2:]]})
+    return path
+
+
 def overlong_path(cfg, fill, nfree):
     """7E + header announcing 2047 + `fill` concrete non-flag octets + nfree free octets + 7E; cuts at the last positions"""
     def path(eng, ctx):
@@ -85,6 +129,14 @@ def scenarios(tier):
             out.append(Scenario(f"structured 7E+{h}hdr+{n}free+7E {HC.cfg_name(cfg)}", structured_path(cfg, h, n, pairs=not q and h + n <= 8),
                                 bounds={"header_like_octets": h, "free_octets": n, "header-like": "free except 7E/7D", "splittings": "every single cut + byte-at-a-time" + (" + all cut pairs" if not q and h + n <= 8 else ""),
                                         "configuration": HC.cfg_name(cfg)}, domains=("hdlc",), frontier=6, assumptions=A))
+    for cfg in HC.CONFIGS:
+        for j in ((2,) if q else (1, 2, 3)):
+            out.append(Scenario(f"7E + {j} free + 7E(7E) + two spec frames {HC.cfg_name(cfg)}", junk_then_good_path(cfg, j, pairs=True),
+                                bounds={"junk_octets": j, "then": "two concrete spec frames, shared or double flag", "splittings": "every single cut, every cut pair, byte-at-a-time", "configuration": HC.cfg_name(cfg)},
+                                domains=("hdlc",), frontier=4, assumptions=A, replay_cap=40))
+        out.append(Scenario(f"a second reader fed in between: 7E+5hdr+{2 if q else 3}free+7E {HC.cfg_name(cfg)}", twin_path(cfg, 2 if q else 3),
+                            bounds={"free_octets": 2 if q else 3, "interleaving": "other reader object reads a frame, an escape-terminated frame and a pending escape between the two calls", "configuration": HC.cfg_name(cfg)},
+                            domains=("hdlc",), frontier=5, assumptions=A, replay_cap=40))
     if not q:
         for cfg in HC.CONFIGS:
             for fill in (2036, 2038, 2040):
